@@ -49,6 +49,7 @@ LEVEL_DRIVERS = {
 def run(ck: Check) -> None:
     g_dfs(ck, "G")
     g_level(ck, "G")
+    g_returns(ck, "G")
     from . import c15
     from .c02 import _Alias
     c15.e3(_Alias(ck, "E3", "G"))  # an expansion that abandons work must not report completion
@@ -112,6 +113,30 @@ def dom_pc_text(fm: FuncModel, n, within=None):
         f = tr.f(b.test)
         fs.append(f if b.pol else logic.Not(f))
     return logic.And(*fs)
+
+
+def g_returns(ck: Check, rule: str) -> None:
+    """Completion (`return True`) is reported only after the work list of the driver ran empty: every `return True`
+    lies behind the exhausted edge of the main loop."""
+    prog = ck.prog
+    for key in list(DFS_DRIVERS) + list(LEVEL_DRIVERS):
+        if key not in prog.repo.functions:
+            continue
+        fm = prog.model(prog.repo.functions[key])
+        f = fm.f
+        mains = [n for n in f.node.body if isinstance(n, ast.While)
+                 and any(isinstance(c, ast.Call) and callee_name(c) == "node_successors" for c in ast.walk(n))]
+        if len(mains) != 1:
+            continue
+        hdr = fm.cfg.loop_header[mains[0]]
+        done = [fm.cfg.nodes[s_] for s_ in fm.cfg.g.successors(hdr.id) if fm.cfg.nodes[s_].kind == "branch" and not fm.cfg.nodes[s_].pol]
+        for r in own_walk(f.node):
+            if isinstance(r, ast.Return) and is_true(r.value):
+                rn = fm.cfgn(r)
+                ok = bool(done) and any(d_ in fm.cfg.dominators(rn) for d_ in done)
+                ck.ob(rule, fm, r, ok, "completion reported after the work list ran empty" if ok else
+                      "`return True` is reachable without the work list having been processed to the end: the expansion reports "
+                      "completion although nodes (stubs left by an earlier call) may still be unexpanded")
 
 
 # ------------------------------------------------------------------------------------------ G (stack drivers)
@@ -304,12 +329,41 @@ def _seed_probe_ok(fm: FuncModel, n: ast.Assign, L: str) -> list[str]:
     av = next((k.value for k in c.keywords if k.arg == "avoid_subspaces"), None)
     if av is not None:
         # only intersections with motifs of *expanded* siblings, reduced to the successor's free variables
+        elts: list = []
+        _chain_elements(fm, av, at, 0, elts)
+        inter = [(x, a_) for x, a_ in elts if isinstance(x, ast.Call) and callee_name(x) == "intersect" and len(x.args) == 2]
+        sks = {f"FIELD<{fm.f.params()[0]}|{s}|space>", f"FIELD<{fm.f.params()[0]}|{fm.key(ast.Name(s, ast.Load()), at)}|space>"}
+        if not any(sks & {fm.key(x.args[0], a_), fm.key(x.args[1], a_)} for x, a_ in inter):
+            probs.append("the motifs avoided by the probe are not intersected with the successor's space: a sibling that is "
+                         "disjoint from the successor still removes candidates from it (its projection is a larger region)")
         if not _from_expanded_children(fm, av, at, 0):
             probs.append("the probe avoids motifs of children that are not known to be expanded: candidates covered only "
                          "by an unexpanded sibling would be dropped")
     if any(k.arg == "ensure_subspace" for k in c.keywords):
         probs.append("the probe is restricted by ensure_subspace")
     return probs
+
+
+def _chain_elements(fm: FuncModel, e: ast.AST, at, depth: int, out: list) -> None:
+    """Element expressions of the comprehensions / filling loops on the provenance chain of the list `e`."""
+    if depth > 10 or e is None:
+        return
+    if isinstance(e, ast.Call) and callee_name(e) in ("sorted", "list", "tuple") and e.args:
+        return _chain_elements(fm, e.args[0], at, depth + 1, out)
+    if isinstance(e, (ast.ListComp, ast.GeneratorExp)):
+        out.append((e.elt, at))
+        return _chain_elements(fm, e.generators[0].iter, at, depth + 1, out)
+    if isinstance(e, ast.Name):
+        for d, v in fm.value_defs(e.id, at):
+            if v is not None and is_empty_list(v):
+                for c in own_walk(fm.f.node):
+                    if isinstance(c, ast.Call) and isinstance(c.func, ast.Attribute) and c.func.attr == "append" and text(c.func.value) == e.id:
+                        out.append((c.args[0], fm.cfgn(c)))
+                        lps = [l for l in fm.cfg.enclosing_loops(fm.cfgn(c)) if isinstance(l, ast.For)]
+                        if lps:
+                            _chain_elements(fm, lps[0].iter, fm.cfg.loop_header[lps[0]], depth + 1, out)
+            elif v is not None:
+                _chain_elements(fm, v, d, depth + 1, out)
 
 
 def _from_expanded_children(fm: FuncModel, e: ast.AST, at, depth: int) -> bool:
